@@ -353,6 +353,13 @@ def run_job(job, tier, keep=False, want_trace=False):
         if res["canaries"] == 0:
             res["reason"] = "vacuity guard: harness has no CANARY"
             return res
+        if res["canaries_reached"] != res["canaries"] and failed:
+            # a failed obligation is definitive; CBMC assumes a failed assertion afterwards, which is what makes the canaries
+            # behind it unreachable (typically a callee precondition that fails on every path)
+            res["status"] = "failed"
+            res["reason"] = "failed obligation(s); %d of %d canaries lie behind them" % (res["canaries"] - res["canaries_reached"], res["canaries"])
+            res["cex"] = extract_cex(job, b, failed[0]["property"], wd, timeout)
+            return res
         if res["canaries_reached"] != res["canaries"]:
             res["reason"] = "vacuity guard: %d of %d canaries unreachable (contradictory precondition or dead harness)" % (
                 res["canaries"] - res["canaries_reached"], res["canaries"])
